@@ -1,6 +1,7 @@
 package gen
 
 import (
+	"fmt"
 	"strings"
 
 	"pgregory.net/rapid"
@@ -14,6 +15,16 @@ var (
 		"*.com", "*.example.com", "x.*.example.com", "*.*.example.com", "EXAMPLE.com", "", " ", "example.invalidtld", "xn--zz--.com", "1.2.3.4", "a..b.com", "a.b.c.d.example.org",
 		"foo.onion", strings.Repeat("a", 64) + ".com", "example.com.", "*.co.uk", "\xc3\xa9xample.com", "a b.com", "mail.example.net", "test.local", "www.example.test", "*.a_b.com",
 		"a.-b.example.com", "1.0.0.127.in-addr.arpa", "example.arpa", "xn--80ak6aa92e.com", "*", ".", "com", "a.b-.com", "_.example.com", "x--y.example.com", "example.co.uk", "www.example.co.uk", "bad_tld._x"}
+	// MoreDNS: names whose judgement interacts with other entries or with the common name -
+	// letter-case variants, reverse-DNS names of both families (reserved, public, malformed),
+	// onion names, IDN forms, TLD edge cases.
+	MoreDNS = []string{"Example.com", "example.COM", "WWW.example.com", "www.Example.com", "Mail.Example.Net",
+		"1.0.0.10.in-addr.arpa", "1.1.168.192.in-addr.arpa", "8.8.8.8.in-addr.arpa", "4.3.2.1.in-addr.arpa", "1.2.3.in-addr.arpa", "x.y.z.w.in-addr.arpa", "256.1.1.1.in-addr.arpa", "1.0.0.224.in-addr.arpa",
+		"1.0.0.0.0.0.0.0.0.0.0.0.0.0.0.0.0.0.0.0.0.0.0.0.0.0.0.0.0.0.0.0.ip6.arpa", "8.8.8.8.0.0.0.0.0.0.0.0.0.0.0.0.0.0.0.0.0.6.8.4.0.6.8.4.1.0.0.2.ip6.arpa",
+		"1.0.0.0.0.0.0.0.0.0.0.0.0.0.0.0.0.0.0.0.0.0.0.0.8.b.d.0.1.0.0.2.ip6.arpa", "1.0.0.0.0.0.0.0.0.0.0.0.0.0.0.0.0.0.0.0.0.0.0.0.0.0.0.0.0.8.e.f.ip6.arpa", "b.a.9.8.ip6.arpa", "g.0.0.0.0.0.0.0.0.0.0.0.0.0.0.0.0.0.0.0.0.0.0.0.0.0.0.0.0.0.0.0.ip6.arpa",
+		"facebookcorewwwi.onion", "pg6mmjiyjmcrsslvykfwnntlaru7p5svn6y2ymmju6nubxndf4pscryd.onion", "www.pg6mmjiyjmcrsslvykfwnntlaru7p5svn6y2ymmju6nubxndf4pscryd.onion", "*.facebookcorewwwi.onion", "short.onion",
+		"xn--mnchen-3ya.de", "xn--bcher-kva.example", "xn--.com", "XN--MNCHEN-3YA.de", "a.xn--zz.com", "example.de", "example.zuerich", "example.co", "example.cm", "*.example.de", "www.example.org", "org",
+		"example.com..", "..", "a.com.", "a_b.example.de", "-x.example.de", "x-.example.de", "9.example.com", "1.2.3.4.5", "a.1", "example.c0m", "*.xn--mnchen-3ya.de", "*a.example.com", "a*.example.com", "*.*", "www.*.com"}
 	EmailDict = []string{"a@b.com", "user@example.com", "bad", "a@b@c", "", "A <a@b.com>", "a@localhost", "a@[1.2.3.4]", " a@b.com", "a@b.com ", "\xc3\xa9@b.com", "a@a_b.com"}
 	URIDict   = []string{"http://example.com/", "https://example.com/x?y", "urn:x:y", "http://[::1]/", "http://[2001:db8::1]:80/x", "ldap://ldap.example.com/cn=x", "//x", "", "http://", "mailto:a@b.com",
 		"http://localhost/", "http://10.0.0.1/", "http://example/", "http://a b/", "example.com", "http://example.com:8080/", "http://user@example.com/", "http://localhost:80/", "https://intranet:8443/ca.crt", "http://example.com:/", "http://[::1]:443/", "http://1.2.3.4:80/", "http://a_b:1/x", "http://user:pw@host:99/", "HTTP://EXAMPLE.COM/", "http://a_b.com/", "ftp://ftp.example.com/f", ":", "http://%zz/"}
@@ -26,7 +37,8 @@ var (
 func DrawGN(t *rapid.T) (*dt.Node, string) {
 	switch rapid.IntRange(0, 19).Draw(t, "gnarm") {
 	case 0, 1, 2, 3, 4, 5, 6, 7, 8:
-		s := DNSDict[rapid.IntRange(0, len(DNSDict)-1).Draw(t, "dns")]
+		pool := DNSPool()
+		s := pool[rapid.IntRange(0, len(pool)-1).Draw(t, "dns")]
 		return GNDNS([]byte(s)), "dns:" + s
 	case 9, 10:
 		s := EmailDict[rapid.IntRange(0, len(EmailDict)-1).Draw(t, "email")]
@@ -100,4 +112,30 @@ func DrawURI(t *rapid.T) (string, string) {
 	port := rapid.SampledFrom([]string{"", "", "", ":80", ":8443", ":", ":0", ":99999", ":x"}).Draw(t, "port")
 	path := rapid.SampledFrom([]string{"", "/", "/ca.crt", "/a?b=c#d", "?q", "#f"}).Draw(t, "path")
 	return scheme + "://" + user + host + port + path, "grammar"
+}
+
+// DNSPool is DNSDict followed by MoreDNS.
+func DNSPool() []string { return append(append([]string{}, DNSDict...), MoreDNS...) }
+
+// GNPool is a fixed list of GeneralNames of every arm (with a description each), for
+// enumerated order sweeps.
+func GNPool() ([]*dt.Node, []string) {
+	var ns []*dt.Node
+	var ds []string
+	for _, s := range DNSPool() {
+		ns, ds = append(ns, GNDNS([]byte(s))), append(ds, "dns:"+s)
+	}
+	for _, s := range EmailDict {
+		ns, ds = append(ns, GNEmail([]byte(s))), append(ds, "email:"+s)
+	}
+	for _, s := range URIDict {
+		ns, ds = append(ns, GNURI([]byte(s))), append(ds, "uri:"+s)
+	}
+	for _, b := range IPDict {
+		ns, ds = append(ns, GNIP(b)), append(ds, fmt.Sprintf("ip:%x", b))
+	}
+	ns, ds = append(ns, GNDirName(simpleName("dir"))), append(ds, "dirName")
+	ns, ds = append(ns, GNOther([]int{1, 3, 6, 1, 5, 5, 7, 8, 9}, dt.Prim(0, 12, []byte("u\xc3\xa9@example.com")))), append(ds, "other:smtpUTF8")
+	ns, ds = append(ns, GNRegID([]int{1, 2, 3, 4})), append(ds, "regID")
+	return ns, ds
 }
